@@ -46,3 +46,14 @@ TEMPLATE_SOURCES = [
     # a whole type model handed to a serialising filter carries its (absolute) source_file_path along
     (r"\|(pickle|yamlfy)\b", "absolute source path inside the serialised type model"),
 ]
+
+
+# keyed sorts / min / max over inputs whose order may be hash order: the key must be injective on the elements (or ties
+# must be harmless); keyed by (function, key expression text) so that a changed key re-opens the obligation
+INJECTIVE_SORT_KEYS = {
+    ("nunavut.lang.html:_natural_sort", "lambda s: (natural_sort_key(s), key(s))"):
+        "the raw name key(s) is part of the sort key: distinct namespaces have distinct full names; entries with equal "
+        "full_name are versions of one type, which arrive from a dict view in insertion order (deterministic)",
+    ("nunavut.lang.py:filter_newest_minor_version_aliases", "lambda x: int(x.version.minor)"):
+        "max() over the types of one (short_name, major): the minor version is unique among them",
+}
